@@ -196,4 +196,260 @@ theorem res_logonFix {c : Ctx} (hc : CtxOK c) {s : Sess} (hs : s.cfg = c.cfg) {m
       rw [e3.q, e1.q]
       simp only [numbered, e1.snd]
 
+theorem wl_wrote (s : Sess) (ms : List OutMsg) : wl (s.wrote ms) = wl s ++ ms := by
+  simp only [wl, Sess.wrote, List.reverse_append, List.reverse_reverse, wiresOf_append]
+  congr 1
+  induction ms with
+  | nil => rfl
+  | cons m rest ih => simp [wiresOf] at ih ⊢; exact ih
+
+/-- the replay: nothing is numbered; a non-empty plan goes out behind whatever was still queued -/
+theorem eff_resendMessages (s : Sess) (b e : Int) (hl : s.st.loggedOn = true) (ho : s.out = true) (hp : s.cfg.persist = true) :
+    (replyPlan true s.store b e = [] ∧ resendMessages s b e = s) ∨
+    (replyPlan true s.store b e ≠ [] ∧ Eff s (resendMessages s b e) 0 (s.toSend ++ replyPlan true s.store b e) []) := by
+  rw [resendMessages_eq, hp]
+  cases hpl : replyPlan true s.store b e with
+  | nil => left; exact ⟨rfl, rfl⟩
+  | cons m rest =>
+    right
+    refine ⟨by simp, ?_⟩
+    rw [enqAll_out s m rest ho]
+    have hk : s.keptQueue = s.toSend := by simp [Sess.keptQueue, hl]
+    rw [hk]
+    exact ⟨⟨rfl, rfl, rfl, rfl, rfl⟩, rfl, by show s.store.sender = _; omega, wl_wrote _ _, rfl⟩
+
+/-- a ResendRequest of the peer (numbered at or above the expected number) reaches a logged-on engine: the replay of
+    the clipped range goes out; the request's own number is consumed iff it is the expected one -/
+theorem res_resendRequest {c : Ctx} (hc : CtxOK c) {s : Sess} (hs : s.cfg = c.cfg) {m : OutMsg} (hw : Wire c.P m)
+    (hk2 : m.kind = "2") (b e : Int) (h7 : m.f.get? 7 = some (toString b)) (h16 : m.f.get? 16 = some (toString e))
+    (hb64 : inInt64 b) (he64 : inInt64 e) (hl : s.st.loggedOn = true) (ho : s.out = true) (hge : s.store.target ≤ m.seq) :
+    ∃ W q, ((replyPlan true s.store b (clipEnd s.cfg s.store.sender e) = [] ∧ W = [] ∧ q = s.toSend) ∨
+            (replyPlan true s.store b (clipEnd s.cfg s.store.sender e) ≠ [] ∧
+              W = s.toSend ++ replyPlan true s.store b (clipEnd s.cfg s.store.sender e) ∧ q = [])) ∧
+      Res s (handleResendRequest s (toIn c.pcfg m)) 0 W q (if m.seq = s.store.target then s.store.target + 1 else s.store.target) .inSession := by
+  have ha : isAdminKind m.kind = true := by rw [hk2]; decide
+  have hb : getInt (toIn c.pcfg m) 7 = .val b := getInt_of_get? _ _ _ (by rw [toIn_get_body _ _ 7 (by decide)]; exact h7) hb64
+  have he : getInt (toIn c.pcfg m) 16 = .val e := getInt_of_get? _ _ _ (by rw [toIn_get_body _ _ 16 (by decide)]; exact h16) he64
+  have hv : verifySelect s (toIn c.pcfg m) false false true = (s.emit (cbObs s (toIn c.pcfg m)), none) := by
+    rw [verifySelect_pool hc hs hw]; simp
+  rw [C03_handleResendRequest s _ _ b e hv hb he]
+  simp only []
+  generalize hs1 : s.emit (cbObs s (toIn c.pcfg m)) = s1
+  have e1 : Eff s s1 0 [] s.toSend := by
+    rw [← hs1]; exact Eff.emit s _ (by intro x; rw [cbObs_toIn, if_pos ha]; simp)
+  have hl1 : s1.st.loggedOn = true := by rw [e1.fr.st]; exact hl
+  have ho1 : s1.out = true := by rw [e1.fr.out]; exact ho
+  have hp1 : s1.cfg.persist = true := by rw [e1.fr.cfg, hs]; exact hc.persist
+  have hst1 : s1.store = s.store := by rw [← hs1]; rfl
+  have hq1 : s1.toSend = s.toSend := e1.q
+  rw [e1.fr.cfg, hst1]
+  have key : ∀ s2 : Sess, ∀ W q, Eff s s2 0 W q →
+      Res s (if (checkTooLow s2 (toIn c.pcfg m)).isSome = true then (s2, SState.inSession)
+             else if (checkTooHigh s2 (toIn c.pcfg m)).isSome = true then (s2, SState.inSession)
+             else (incrTarget s2, SState.inSession)) 0 W q (if m.seq = s.store.target then s.store.target + 1 else s.store.target) .inSession := by
+    intro s2 W q e2
+    rw [checkTooLow_pool hc hw, checkTooHigh_pool hc hw, e2.tgt]
+    have h1 : ¬ m.seq < s.store.target := by omega
+    by_cases h2 : m.seq > s.store.target
+    · have hne : ¬ m.seq = s.store.target := by omega
+      simp only [h1, h2, hne, if_true, if_false, Option.isSome_some, Option.isSome_none, Bool.false_eq_true]
+      exact Res.of_eff e2 _
+    · have heq : m.seq = s.store.target := by omega
+      have h3 : ¬ s.store.target < s.store.target := by omega
+      have h4 : ¬ s.store.target > s.store.target := by omega
+      simp only [heq, h3, h4, if_true, if_false, Option.isSome_none, Bool.false_eq_true]
+      exact Res.of_eff_incr e2 SState.inSession
+  rcases eff_resendMessages s1 b (clipEnd s.cfg s.store.sender e) hl1 ho1 hp1 with ⟨hpl, hr⟩ | ⟨hpl, hr⟩
+  · rw [hst1] at hpl
+    rw [hr]
+    exact ⟨[], s.toSend, Or.inl ⟨hpl, rfl, rfl⟩, key s1 [] s.toSend e1⟩
+  · rw [hst1] at hpl hr
+    rw [hq1] at hr
+    have e2 := e1.trans hr
+    simp only [Int.add_zero, List.nil_append] at e2
+    exact ⟨_, [], Or.inr ⟨hpl, rfl, rfl⟩, key _ _ [] e2⟩
+
+/-- a gap fill of the peer numbered exactly as expected: the expected number jumps to its NewSeqNo, nothing is sent -/
+theorem res_gapFill {c : Ctx} (hc : CtxOK c) {s : Sess} (hs : s.cfg = c.cfg) (b e : Int) (hw : Wire c.P (gapFill b e))
+    (hb : b = s.store.target) :
+    Res s (inSessionFixMsgIn s (toIn c.pcfg (gapFill b e))) 0 [] s.toSend e .inSession := by
+  obtain ⟨b', e', heq, hbe, he, hlo, _⟩ := wire_gap_inv hc.pok hw rfl
+  have hb' : b' = b := by have := congrArg OutMsg.seq heq; exact this.symm
+  have he' : e' = e := by
+    have := congrArg OutMsg.f heq
+    simp only [gapFill, List.cons.injEq, Prod.mk.injEq, true_and, and_true] at this
+    exact (toString_int_inj this).symm
+  subst hb' he'
+  have h123 : getBool (toIn c.pcfg (gapFill b' e')) 123 = .val true :=
+    getBool_Y _ _ (by rw [toIn_get_body _ _ 123 (by decide)]; simp [gapFill, get?_cons])
+  have hbound := hc.bound
+  have h36 : getInt (toIn c.pcfg (gapFill b' e')) 36 = .val e' :=
+    getInt_of_get? _ _ _ (by rw [toIn_get_body _ _ 36 (by decide)]; simp [gapFill, get?_cons])
+      (by unfold inInt64; unfold maxSeq at hbound; omega)
+  have hfx : inSessionFixMsgIn s (toIn c.pcfg (gapFill b' e')) = handleSequenceReset s (toIn c.pcfg (gapFill b' e')) := by
+    unfold inSessionFixMsgIn
+    simp only [toIn_kind, gapFill]
+    simp
+  rw [hfx]
+  unfold handleSequenceReset
+  rw [h123]
+  simp only []
+  rw [verifySelect_pool hc hs hw]
+  have hseq : (gapFill b' e').seq = b' := rfl
+  have h1 : ¬ b' < s.store.target := by omega
+  have h2 : ¬ s.store.target < b' := by omega
+  simp only [true_and, if_true, hseq, h1, h2, if_false]
+  rw [h36]
+  simp only []
+  have ht : (s.emit (cbObs s (toIn c.pcfg (gapFill b' e')))).store.target = s.store.target := rfl
+  have hgt : e' > (s.emit (cbObs s (toIn c.pcfg (gapFill b' e')))).store.target := by rw [ht]; omega
+  rw [if_pos hgt]
+  refine ⟨⟨rfl, rfl, rfl, rfl, rfl⟩, rfl, by show s.store.sender = _; omega, ?_, rfl, rfl⟩
+  show wl (((s.emit _).setTarget e').emit _) = _
+  rw [wl_emit _ _ (by intro _; simp)]
+  show wl (s.emit _) = _
+  rw [wl_emit _ _ (by intro x; rw [cbObs_toIn]; split <;> simp)]
+  simp
+
+/-- any other message of the peer that needs no answer (not Logon / Logout / ResendRequest / TestRequest / SequenceReset)
+    numbered exactly as expected: the expected number advances by one, nothing is sent -/
+theorem res_plain {c : Ctx} (hc : CtxOK c) {s : Sess} (hs : s.cfg = c.cfg) {m : OutMsg} (hw : Wire c.P m)
+    (hk : m.kind ≠ "A" ∧ m.kind ≠ "5" ∧ m.kind ≠ "2" ∧ m.kind ≠ "4" ∧ m.kind ≠ "1") (hseq : m.seq = s.store.target) :
+    Res s (inSessionFixMsgIn s (toIn c.pcfg m)) 0 [] s.toSend (s.store.target + 1) .inSession := by
+  obtain ⟨hA, h5, h2, h4, h1⟩ := hk
+  unfold inSessionFixMsgIn
+  simp only [toIn_kind, beq_iff_eq, hA, h5, h2, h4, h1, if_false]
+  rw [verifySelect_pool hc hs hw]
+  have g1 : ¬ m.seq < s.store.target := by omega
+  have g2 : ¬ s.store.target < m.seq := by omega
+  simp only [true_and, if_true, g1, g2, if_false]
+  exact Res.of_eff_incr (Eff.emit s _ (by intro x; rw [cbObs_toIn]; split <;> simp)) _
+
+/-- in the resend state with nothing stashed and the whole gap requested at once (`cur = 0`): the message is handled as
+    in session; the engine leaves the resend state as soon as the expected number has passed the end of the gap -/
+theorem res_resendFix {s : Sess} {im : InMsg} {n : Int} {W q : List OutMsg} {t' : Int} (fin : Int)
+    (h : Res s (inSessionFixMsgIn s im) n W q t' .inSession) (hg : getBool im 123 ≠ .garbled) :
+    Res s (resendFixMsgIn s [] 0 fin im) n W q t' (if fin ≥ t' then .resend [] 0 fin else .inSession) := by
+  unfold resendFixMsgIn
+  generalize inSessionFixMsgIn s im = r at h
+  obtain ⟨s', nx⟩ := r
+  obtain ⟨hfr, htg, hsn, hw, hq, hnx⟩ := h
+  simp only [] at hfr htg hsn hw hq hnx ⊢
+  subst hnx
+  simp only [SState.loggedOn, Bool.not_true, Bool.false_eq_true, if_false, bne_self_eq_false, Bool.false_and, Bool.and_false]
+  rw [htg]
+  by_cases hf : fin ≥ t'
+  · simp only [hf, if_true]
+    exact ⟨hfr, htg, hsn, hw, hq, rfl⟩
+  · simp only [hf, if_false]
+    simp only [drainStash, List.length_nil, List.find?_nil]
+    exact ⟨hfr, htg, hsn, hw, hq, rfl⟩
+
+/-- what one event did to an engine, as far as the resynchronisation is concerned -/
+structure StepIs (s : Sess) (e : Ev) (st' : SState) (t' n : Int) (W q : List OutMsg) (o : Bool) : Prop where
+  st : (step s e).1.st = st'
+  tgt : (step s e).1.store.target = t'
+  snd : (step s e).1.store.sender = s.store.sender + n
+  w : wiresOf (step s e).2.1 = W
+  q : (step s e).1.toSend = q
+  out : (step s e).1.out = o
+
+theorem connected_sessionTime {st : SState} (h : st.connected = true) : st.sessionTime = true := by
+  cases st <;> simp_all [SState.connected, SState.sessionTime]
+
+theorem stepIs_incoming (s : Sess) (im : InMsg) (hcon : s.st.connected = true) {n : Int} {W q : List OutMsg} {t' : Int} {nx : SState}
+    (hr : Res s.clearLog (fixMsgInCore s.clearLog im) n W q t' nx) (hnx : nx.connected = true) :
+    StepIs s (.incomingMsg (some im)) nx t' n W q s.out := by
+  have hstep : step s (.incomingMsg (some im)) =
+      ((((fixMsgInCore s.clearLog im).1.setSt nx).emit (.armPeer (1200 * (fixMsgInCore s.clearLog im).1.hb))).clearLog,
+       ((((fixMsgInCore s.clearLog im).1.setSt nx).emit (.armPeer (1200 * (fixMsgInCore s.clearLog im).1.hb))).log.reverse), "ok") := by
+    unfold step stepCore
+    simp only []
+    have hf : fuelOf s.clearLog = (4 * s.inbox.length + 6) + 1 + 1 := by unfold fuelOf; rfl
+    rw [hf]
+    unfold incoming
+    simp only []
+    rw [checkSessionTime_inrange _ _ (connected_sessionTime (by exact hcon))]
+    have hc : s.clearLog.st.connected = true := hcon
+    simp only [hc, Bool.not_true, Bool.false_eq_true, if_false]
+    generalize fixMsgInCore s.clearLog im = r at hr
+    obtain ⟨s1, nx1⟩ := r
+    have : nx1 = nx := hr.nx
+    subst this
+    simp only [setState_connected _ _ _ hnx]
+    rfl
+  generalize fixMsgInCore s.clearLog im = r at hr hstep
+  obtain ⟨s1, nx1⟩ := r
+  obtain ⟨hfr, htg, hsn, hw, hq, hn⟩ := hr
+  simp only [] at hfr htg hsn hw hq hn hstep
+  have hwl : wl s1 = W := by rw [hw]; simp [wl, Sess.clearLog, wiresOf]
+  refine ⟨by rw [hstep]; rfl, by rw [hstep]; exact htg, by rw [hstep]; exact hsn, ?_, by rw [hstep]; exact hq,
+    by rw [hstep]; exact hfr.out⟩
+  rw [hstep]
+  show wiresOf ((Obs.armPeer _ :: s1.log).reverse) = W
+  rw [List.reverse_cons, wiresOf_append, ← hwl]
+  simp [wl, wiresOf]
+
+theorem stepIs_flush (s : Sess) (hl : s.st.loggedOn = true) (ho : s.out = true) :
+    StepIs s .flush s.st s.store.target 0 s.toSend [] true := by
+  have hcon : s.st.connected = true := by cases h : s.st <;> simp_all [SState.loggedOn, SState.connected]
+  have hstep : step s .flush = ((sendQueued s.clearLog).clearLog, (sendQueued s.clearLog).log.reverse, "ok") := by
+    unfold step stepCore
+    simp only []
+    have hf : fuelOf s.clearLog = (4 * s.inbox.length + 7) + 1 := by unfold fuelOf; rfl
+    rw [hf, checkSessionTime_inrange _ _ (connected_sessionTime (by exact hcon))]
+    have : s.clearLog.st.loggedOn = true := hl
+    simp [this]
+  have e := eff_sendQueued s.clearLog (show s.clearLog.out = true from ho)
+  refine ⟨by rw [hstep]; exact e.fr.st, by rw [hstep]; exact e.tgt, by rw [hstep]; show (sendQueued s.clearLog).store.sender = _; rw [e.snd]; rfl,
+    ?_, by rw [hstep]; exact e.q, by rw [hstep]; show (sendQueued s.clearLog).out = true; rw [e.fr.out]; exact ho⟩
+  rw [hstep]
+  show wl (sendQueued s.clearLog) = s.toSend
+  rw [e.w]; simp [wl, Sess.clearLog, wiresOf]
+
+/-- connecting from the disconnected state, reset options off: the initiator writes its Logon (its queue is dropped),
+    the acceptor only waits -/
+theorem stepIs_connect {s : Sess} (hst : s.st = .latent) (hnr : NoResetCfg s.cfg) (hp : s.cfg.persist = true) :
+    (s.cfg.initiator = true ∧ ∃ mL, IsLogon s.cfg mL ∧ mL.seq = s.store.sender ∧
+        StepIs s .connect .logon s.store.target 1 [mL] [] true) ∨
+    (s.cfg.initiator = false ∧ StepIs s .connect .logon s.store.target 0 [] s.toSend true) := by
+  have h1 : s.cfg.resetOnDisconnect = false := hnr.2.2
+  have h2 : s.cfg.resetOnLogon = false := hnr.1
+  have hcon : s.clearLog.st.connected = false := by show s.st.connected = false; rw [hst]; rfl
+  have hses : s.clearLog.st.sessionTime = true := by show s.st.sessionTime = true; rw [hst]; rfl
+  cases hi : s.cfg.initiator
+  · right
+    refine ⟨rfl, ?_⟩
+    have hstep : step s .connect = ((s.clearLog.openConn.setSt .logon).clearLog, (s.clearLog.openConn.setSt .logon).log.reverse, "ok") := by
+      unfold step stepCore connect
+      have : s.clearLog.openConn.cfg.initiator = false := hi
+      simp [hcon, hses, this]
+    exact ⟨by rw [hstep]; rfl, by rw [hstep]; rfl, by rw [hstep]; show s.store.sender = _; omega, by rw [hstep]; rfl, by rw [hstep]; rfl, by rw [hstep]; rfl⟩
+  · left
+    refine ⟨rfl, ?_⟩
+    generalize hx : (if s.clearLog.openConn.cfg.refreshOnLogon = true then s.clearLog.openConn.emit Obs.refresh else s.clearLog.openConn) = x
+    have ex : Eff s.clearLog.openConn x 0 [] s.toSend := by
+      rw [← hx]; split
+      · exact Eff.emit _ _ (by intro _; simp)
+      · exact Eff.refl _
+    have hxo : x.out = true := by rw [ex.fr.out]; rfl
+    have hxp : x.cfg.persist = true := by rw [ex.fr.cfg]; exact hp
+    have hxc : x.cfg = s.cfg := ex.fr.cfg
+    have hsr : shouldSendReset x = false := shouldSendReset_false x (by rw [hxc]; exact hnr)
+    have e2 := eff_dropAndSend x (logonMsg x false) (outOK_logon x) hxp hxo
+    have hstep : step s .connect = (((sendLogonInReplyTo x false).setSt .logon).clearLog, ((sendLogonInReplyTo x false).setSt .logon).log.reverse, "ok") := by
+      unfold step stepCore connect
+      have hi' : s.clearLog.openConn.cfg.initiator = true := hi
+      have h2' : x.cfg.resetOnLogon = false := by rw [hxc]; exact h2
+      simp only [hcon, hses, Bool.false_eq_true, if_false, Bool.not_true, hi', hx, h2', hsr]
+    have e3 := ex.trans e2
+    refine ⟨numbered x (logonMsg x false), ?_, ?_, ?_⟩
+    · have := isLogon_logonMsg x x.store.sender; rw [hxc] at this; exact this
+    · show x.store.sender = _; rw [ex.snd]; show s.store.sender + 0 = _; omega
+    · refine ⟨by rw [hstep]; rfl, by rw [hstep]; exact e3.tgt, by rw [hstep]; show (dropAndSend x _).store.sender = _; rw [e3.snd]; show s.store.sender + _ = _; omega,
+        ?_, by rw [hstep]; exact e3.q, by rw [hstep]; show (dropAndSend x _).out = true; rw [e3.fr.out]; rfl⟩
+      rw [hstep]
+      show wl (dropAndSend x (logonMsg x false)) = _
+      rw [e3.w]; simp [wl, Sess.clearLog, Sess.openConn, wiresOf]
+
 end Qfx.Link
